@@ -452,6 +452,55 @@ func checkC18(w *World, r *Report) {
 				return okL, okB
 			}
 			okLoop, okBurn = analyse(sdpE.Site.Caller, dists, burn, sdp.Block(), 0)
+			// the events may be handed UP: the function that calls the distribution routine returns them (nil where
+			// nothing was distributed) and its caller emits them
+			curFn, curD, curB := sdpE.Site.Caller, dists, burn
+			for lvl := len(sdpE.Chain) - 1; lvl >= 0 && !(okLoop && okBurn); lvl-- {
+				di, bi := -1, -1
+				clean := true
+				for _, ret := range Returns(curFn) {
+					rv := retVals(ret)
+					for idx, v := range rv {
+						if v == curD && curD != nil {
+							di = idx
+						}
+						if v == curB && curB != nil {
+							bi = idx
+						}
+					}
+				}
+				for _, ret := range Returns(curFn) {
+					rv := retVals(ret)
+					for _, idx := range []int{di, bi} {
+						if idx < 0 || idx >= len(rv) {
+							continue
+						}
+						if v := rv[idx]; v != curD && v != curB && !isNilConst(v) {
+							clean = false // something else than the events (or nothing) is returned in their place
+						}
+					}
+				}
+				up := sdpE.Chain[lvl]
+				call, isCall := up.Instr.(*ssa.Call)
+				if !clean || !isCall || (di < 0 && bi < 0) || call.Referrers() == nil {
+					break
+				}
+				var nd, nb ssa.Value
+				for _, ref := range *call.Referrers() {
+					if ex, ok := ref.(*ssa.Extract); ok {
+						if ex.Index == di {
+							nd = ex
+						}
+						if ex.Index == bi {
+							nb = ex
+						}
+					}
+				}
+				l2, b2 := analyse(up.Caller, nd, nb, call.Block(), 0)
+				okLoop = okLoop || (nd != nil && l2)
+				okBurn = okBurn || (nb != nil && b2)
+				curFn, curD, curB = up.Caller, nd, nb
+			}
 			// the function holding the call is itself reached unconditionally from the loop over the sub-distributors: its
 			// chain calls are not inside a branch that depends on the events (nothing to check: the events do not exist yet)
 		}
